@@ -906,7 +906,7 @@ func (c *c01) genRandom(seed int64, base, n int, big bool) {
 			continue
 		}
 		r := rand.New(rand.NewSource(seed*1000003 + int64(i)))
-		cfg := &genCfg{maxDepth: 2 + r.Intn(3), maxElems: 1 + r.Intn(5), maxStr: 40}
+		cfg := &genCfg{maxDepth: 2 + r.Intn(3), maxElems: 1 + r.Intn(5), maxStr: 40, contKeys: r.Intn(5) == 0}
 		if big && r.Intn(10) == 0 {
 			cfg.maxElems = 20 + r.Intn(30)
 			cfg.maxStr = 4100
